@@ -87,7 +87,7 @@ def u1(ctx):
                 # reaching the raise requires the comparison to say 'different'
                 want = "t" if isinstance(t.ops[0], ast.NotEq) else "f"
                 other = [(tnode, m, l) for m, l in tnode.succ if l != want and l != "exc"]
-                if r.id in cfg.reachable([cfg.entry], block_edges=[(tnode, m, l) for m, l in tnode.succ if l == want]) or not other:
+                if r.id in cfg.reachable([cfg.entry], block_edges=cfg.test_edges(tnode, want)) or not other:
                     continue
                 from .common import drop_none
                 sides = [drop_none(cfg, tnode, x_, origins(du, tnode, x_)) for x_ in (t.left, t.comparators[0])]
@@ -389,7 +389,7 @@ def u6(ctx):
                     continue
                 same = "t" if isinstance(t.ops[0], ast.Eq) else "f"
                 if c.id in cfg.reachable([m for m, l in lp.succ if l == "loop"], block_nodes=[lp],
-                                         block_edges=[(tn, m2, l2) for m2, l2 in tn.succ if l2 == same]):
+                                         block_edges=cfg.test_edges(tn, same)):
                     continue   # the skip does not require this comparison to hold
                 sides = [t.left, t.comparators[0]]
                 from .common import drop_none
